@@ -345,8 +345,48 @@ pub fn reference(cfg: &Config, side: Side, rules: &[Rule]) -> Result<BTreeSet<St
 
 // ------------------------------------------------------------ real engine
 
+/// Digest codes: 1, 2 (and any other small number) = {sha256: h(n)};
+/// 11 = {sha512: H(1)}; 12 = {sha256: h(1), sha512: H(1)}; 13 = {sha256: h(1), sha512: H(2)};
+/// 14 = {} (no algorithm). Distinct codes are distinct digest maps.
+fn code_desc(d: u8) -> in_toto::models::TargetDescription {
+    use in_toto::crypto::{HashAlgorithm, HashValue};
+    let mut m = in_toto::models::TargetDescription::new();
+    match d {
+        11 => {
+            m.insert(HashAlgorithm::Sha512, HashValue::new(util::sha512(&[1])));
+        }
+        12 => return world::desc2(1),
+        13 => {
+            m = world::desc(1);
+            m.insert(HashAlgorithm::Sha512, HashValue::new(util::sha512(&[2])));
+        }
+        14 => {}
+        n => return world::desc(n),
+    }
+    m
+}
+
 fn to_lib_arts(a: &Arts) -> world::Artifacts {
-    a.iter().map(|(p, d)| (world::vpath(p), world::desc(*d))).collect()
+    a.iter().map(|(p, d)| (world::vpath(p), code_desc(*d))).collect()
+}
+
+/// Configurations about digest-map equality: one artifact on each side recorded with
+/// every pair of digest-map shapes.
+fn algorithm_configs() -> Vec<Config> {
+    let codes = [1u8, 2, 11, 12, 13, 14];
+    let mut out = vec![];
+    for x in codes {
+        for y in codes {
+            for z in codes {
+                if z != 1 && z != x {
+                    continue;
+                }
+                let mk = |v: &[(&str, u8)]| -> Arts { v.iter().map(|(p, d)| (p.to_string(), *d)).collect() };
+                out.push(Config { materials: mk(&[("a", x)]), products: mk(&[("a", z), ("b", x)]), other: Some((mk(&[("a", y), ("b", y)]), mk(&[("a", y), ("e/a", y), ("b", x)]))) });
+            }
+        }
+    }
+    out
 }
 
 pub struct Engine {
@@ -667,10 +707,11 @@ pub fn run(tier: Tier) -> i32 {
     let alphabet = rule_alphabet(thorough);
     let items = item_configs();
     let others = other_configs(thorough);
-    let configs: Vec<Config> = items
+    let mut configs: Vec<Config> = items
         .iter()
         .flat_map(|(m, p)| others.iter().map(move |o| Config { materials: m.clone(), products: p.clone(), other: o.clone() }))
         .collect();
+    configs.extend(algorithm_configs());
     let bfs_depth = if thorough { 8 } else { 6 };
     // ---- BFS (deduplicated) ----------------------------------------------
     let accs = util::par_fold(&configs, Acc::new, |acc, ci, cfg| {
@@ -776,7 +817,7 @@ pub fn run(tier: Tier) -> i32 {
 
     c.acc = acc;
     c.rule = format!(
-        "state = (artifact configuration, side, remaining queue); {} configurations = 125 item configurations over paths a,b,d/a in {{absent,deleted,created,unchanged,modified}} x {} referenced-step configurations; transition = append one of {} rules; queue observed through DISALLOW probes; non-trivial = configuration with at least one artifact",
+        "state = (artifact configuration, side, remaining queue); {} configurations = 125 item configurations over paths a,b,d/a in {{absent,deleted,created,unchanged,modified}} x {} referenced-step configurations; plus 72 digest-map-shape configurations (sha256 / sha512 / both / none on either side); transition = append one of {} rules; queue observed through DISALLOW probes; non-trivial = configuration with at least one artifact",
         configs.len(),
         others.len(),
         alphabet.len()
